@@ -147,4 +147,311 @@ structure SetFrag (E : Env) (st : St) (regs : List Reg) (o : Id) (n : Name) (v :
     ∀ c' ∈ visits st.h o n r.g (some r.x),
     (NKey.maint .trait c k).equals (.maint .trait c' r.k) = true → c = c' ∧ k = r.k
 
+/-! ### auxiliary facts -/
+
+theorem cntItems_zero_of_ne (l : List Item) (o' : Observable) (q : NKey) (hne : ∀ it ∈ l, it.1 ≠ o') :
+    cntItems l o' q = 0 := by
+  induction l with
+  | nil => rfl
+  | cons it l ih =>
+    rw [cntItems_cons, ih (fun i hi => hne i (List.mem_cons_of_mem _ hi))]
+    simp [wt, hne it (List.mem_cons_self ..)]
+
+theorem visits_noFiltered (h : Heap) (o : Id) (n : Name) :
+    ∀ g : Graph, g.noFiltered = true → ∀ x, ∀ c ∈ visits h o n g x, c.noFiltered = true := by
+  apply Graph.ind (P := fun g => g.noFiltered = true → ∀ x, ∀ c ∈ visits h o n g x, c.noFiltered = true)
+  intro ob cs ih hnf x c hc
+  obtain ⟨_, hcs⟩ := (Graph.noFiltered_node ob cs).1 hnf
+  have hC : ∀ cs' : List Graph, (∀ c' ∈ cs', c' ∈ cs) → ∀ c ∈ visitsCs h o n ob x cs', c.noFiltered = true := by
+    intro cs'
+    induction cs' with
+    | nil => intro _ c hc; simp [visitsCs] at hc
+    | cons c' cs' ihc =>
+      intro hsub c hc
+      simp only [visitsCs, List.mem_append] at hc
+      rcases hc with h1 | h1
+      · split at h1
+        · cases h1
+        · simp only [List.mem_flatMap] at h1
+          obtain ⟨y, _, hy⟩ := h1
+          exact ih c' (hsub c' (List.mem_cons_self ..)) (hcs c' (hsub c' (List.mem_cons_self ..))) y c hy
+      · exact ihc (fun c'' h'' => hsub c'' (List.mem_cons_of_mem _ h'')) c h1
+  simp only [visits, List.mem_append] at hc
+  rcases hc with h1 | h1
+  · split at h1
+    · exact hcs c h1
+    · cases h1
+  · exact hC cs (fun c' h' => h') c h1
+
+theorem fieldVal_of_find {h : Heap} {o : Id} {n : Name} {fs : List Field} {f : Field}
+    (ho : h.get o = .inst fs) (hf : findField fs n = some f) : fieldVal h (some o) n = f.val := by
+  simp [fieldVal, Heap.at, ho, hf]
+
+theorem sum_map_congr {α} (l : List α) (f g : α → Nat) (hfg : ∀ a ∈ l, f a = g a) :
+    (l.map f).sum = (l.map g).sum := by
+  induction l with
+  | nil => rfl
+  | cons a l ih =>
+    simp only [List.map_cons, List.sum_cons, hfg a (List.mem_cons_self ..),
+      ih (fun b hb => hfg b (List.mem_cons_of_mem _ hb))]
+
+theorem sum_map_zero {α} (l : List α) (f : α → Nat) (hf : ∀ a ∈ l, f a = 0) : (l.map f).sum = 0 := by
+  induction l with
+  | nil => rfl
+  | cons a l ih =>
+    simp only [List.map_cons, List.sum_cons, hf a (List.mem_cons_self ..),
+      ih (fun b hb => hf b (List.mem_cons_of_mem _ hb))]
+
+theorem cntList_pos_of_mem (mk : MKind) (g : Graph) (k : HKey) (ns : List Notifier)
+    (hm : Notifier.maint mk g k ∈ ns) : 0 < cntList (.maint mk g k) ns := by
+  induction ns with
+  | nil => cases hm
+  | cons nt ns ih =>
+    cases hm with
+    | head => simp [cntList, NKey.equals_refl]; omega
+    | tail _ h' =>
+      have := ih h'
+      cases nt <;> simp only [cntList] <;> omega
+
+/-- observers whose observables are instance traits contribute trait maintainers -/
+theorem observables_trait_kind (h : Heap) (ob : Observer) (x : W) (a : Id) (b : Name)
+    (hm : Observable.trait a b ∈ okOr [] (observables h ob x)) : ob.mkind = .trait := by
+  cases ob with
+  | named m nt opt => rfl
+  | filtered fl nt => rfl
+  | listItems nt opt =>
+    exfalso
+    simp only [observables] at hm
+    split at hm
+    · simp [okOr] at hm
+    · split at hm <;> simp [okOr] at hm
+  | dictItems nt opt =>
+    exfalso
+    simp only [observables] at hm
+    split at hm
+    · simp [okOr] at hm
+    · split at hm <;> simp [okOr] at hm
+  | setItems nt opt =>
+    exfalso
+    simp only [observables] at hm
+    split at hm
+    · simp [okOr] at hm
+    · split at hm <;> simp [okOr] at hm
+
+/-- on an instance trait the from-scratch walk owes only user notifiers, trait
+maintainers and trait_added maintainers -/
+def KindOK (it : Item) : Prop :=
+  ∀ a b mk c k, it.1 = .trait a b → it.2 = .maint mk c k → mk = .trait ∨ mk = .added
+
+theorem hookList_kinds (h : Heap) (k : HKey) :
+    ∀ g : Graph, ∀ (e : Bool) (x : W), ∀ it ∈ hookList h k e g x, KindOK it := by
+  apply Graph.ind (P := fun g => ∀ (e : Bool) (x : W), ∀ it ∈ hookList h k e g x, KindOK it)
+  intro ob cs ih e x it hit
+  rw [hookList_node, List.mem_append, List.mem_append] at hit
+  rcases hit with (h1 | h1) | h1
+  · -- own items
+    simp only [ownItems, List.mem_append, List.mem_flatMap, List.mem_map] at h1
+    rcases h1 with h2 | ⟨ob', hob', c, _, rfl⟩
+    · split at h2
+      · simp only [List.mem_map] at h2
+        obtain ⟨ob', _, rfl⟩ := h2
+        intro a b mk c k' _ h4; cases h4
+      · cases h2
+    · intro a b mk c' k' h3 h4
+      simp only at h3 h4
+      subst h3
+      injection h4 with e1 _ _
+      rw [← e1, observables_trait_kind h ob x a b hob']
+      exact Or.inl rfl
+  · obtain ⟨c, hc, y, _, hm⟩ := (mem_hookListCs h k ob x cs it).1 h1
+    exact ih c hc true y it hm
+  · split at h1
+    · simp only [extraItems, List.mem_map] at h1
+      obtain ⟨ob', _, rfl⟩ := h1
+      intro a b mk c k' _ h4
+      injection h4 with e1 _ _
+      exact Or.inr e1.symm
+    · cases h1
+
+theorem specCnt_kind_trait (h : Heap) (regs : List Reg) (o : Id) (n : Name) (q : NKey)
+    (hq : ∃ mk c k, q = .maint mk c k ∧ mk ≠ .trait ∧ mk ≠ .added) :
+    specCnt h regs (.trait o n) q = 0 := by
+  obtain ⟨mk, c, k, rfl, h1, h2⟩ := hq
+  unfold specCnt
+  apply sum_map_zero
+  intro r _
+  unfold cntItems
+  rw [List.countP_eq_zero]
+  intro it hit
+  simp only [Bool.and_eq_true, beq_iff_eq, not_and, Bool.not_eq_true]
+  intro e1
+  cases hi : it.2 with
+  | user k' => simp [NKey.equals]
+  | maint mk' c' k' =>
+    rcases hookList_kinds h r.k r.g true (some r.x) it hit o n mk' c' k' e1 hi with rfl | rfl
+    · cases mk <;> simp_all [NKey.equals]
+    · cases mk <;> simp_all [NKey.equals]
+
+/-! ### the theorem -/
+
+theorem setField_preserves (E : Env) (st : St) (regs : List Reg) (o : Id) (n : Name) (v : Val) (fresh : Id)
+    (fs : List Field) (f : Field) (hinv : HooksEqReach st.h st.H regs) (fr : SetFrag E st regs o n v fs f) :
+    HooksEqReach (mutate E st (.setField o n v fresh)).st.h (mutate E st (.setField o n v fresh)).st.H regs ∧
+    (mutate E st (.setField o n v fresh)).err = none := by
+  obtain ⟨hwf, hcnt⟩ := hinv
+  -- the two heaps and the decomposition of every registration's walk
+  have hold : fieldVal st.h (some o) n = f.val := fieldVal_of_find fr.ho fr.hf
+  have R0 : Rel st.h st.h o n f.val := by have := Rel.self st.h o n; rwa [hold] at this
+  have R1 : Rel st.h (storeField st.h o n v) o n v := Rel.store v fr.ho
+  have Dh : ∀ r ∈ regs, ∀ o' q, cntItems (hookList st.h r.k true r.g (some r.x)) o' q =
+      cntItems (stable st.h r.k o n true r.g (some r.x)) o' q +
+      blocks st.h r.k f.val (visits st.h o n r.g (some r.x)) o' q :=
+    fun r hr o' q => dec R0 r.k r.g (fr.noFiltered r hr) true (some r.x) o' q
+  have Dh' : ∀ r ∈ regs, ∀ o' q, cntItems (hookList (storeField st.h o n v) r.k true r.g (some r.x)) o' q =
+      cntItems (stable st.h r.k o n true r.g (some r.x)) o' q +
+      blocks (storeField st.h o n v) r.k v (visits st.h o n r.g (some r.x)) o' q :=
+    fun r hr o' q => dec R1 r.k r.g (fr.noFiltered r hr) true (some r.x) o' q
+  -- L3: below the old value nothing changes
+  have L3 : ∀ r ∈ regs, ∀ o' q, blocks (storeField st.h o n v) r.k f.val (visits st.h o n r.g (some r.x)) o' q =
+      blocks st.h r.k f.val (visits st.h o n r.g (some r.x)) o' q := by
+    intro r hr o' q
+    unfold blocks
+    apply sum_map_congr
+    intro c hc
+    congr 1
+    apply flatMap_congr'
+    intro w hw
+    exact locality R1 r.k c (visits_noFiltered st.h o n r.g (fr.noFiltered r hr) (some r.x) c hc) true w
+      (fr.noSelfReach r hr c hc w hw)
+  -- NoSelfReach: the old blocks leave nothing on the mutated trait
+  have B0 : ∀ r ∈ regs, ∀ q, blocks st.h r.k f.val (visits st.h o n r.g (some r.x)) (.trait o n) q = 0 := by
+    intro r hr q
+    unfold blocks
+    apply sum_map_zero
+    intro c hc
+    apply cntItems_zero_of_ne
+    intro it hit
+    simp only [List.mem_flatMap] at hit
+    obtain ⟨w, hw, hm⟩ := hit
+    exact fr.noSelfReach r hr c hc w hw it hm
+  -- the specification in the two heaps
+  have specH : ∀ o' q, specCnt st.h regs o' q =
+      (regs.map (fun r => cntItems (stable st.h r.k o n true r.g (some r.x)) o' q)).sum +
+      (regs.map (fun r => blocks st.h r.k f.val (visits st.h o n r.g (some r.x)) o' q)).sum := by
+    intro o' q
+    unfold specCnt
+    rw [← sum_map_add]
+    exact sum_map_congr _ _ _ (fun r hr => Dh r hr o' q)
+  have specH' : ∀ o' q, specCnt (storeField st.h o n v) regs o' q =
+      (regs.map (fun r => cntItems (stable st.h r.k o n true r.g (some r.x)) o' q)).sum +
+      (regs.map (fun r => blocks (storeField st.h o n v) r.k v (visits st.h o n r.g (some r.x)) o' q)).sum := by
+    intro o' q
+    unfold specCnt
+    rw [← sum_map_add]
+    exact sum_map_congr _ _ _ (fun r hr => Dh' r hr o' q)
+  -- the maintainers on the mutated trait are the visits (up to `equals`)
+  have hcounts : ∀ q, (mtKeys (st.H.get (.trait o n))).countP (fun a => a.equals q) =
+      (visitKeys st.h o n regs).countP (fun a => a.equals q) := by
+    intro q
+    by_cases hq : ∃ c0 k0, q = .maint .trait c0 k0
+    · obtain ⟨c0, k0, rfl⟩ := hq
+      rw [← cntList_eq_countP, visitKeys_countP]
+      have := hcnt (.trait o n) (.maint .trait c0 k0)
+      unfold cnt at this
+      rw [this, specH]
+      have hz : (regs.map (fun r => blocks st.h r.k f.val (visits st.h o n r.g (some r.x)) (.trait o n)
+          (.maint .trait c0 k0))).sum = 0 := sum_map_zero _ _ (fun r hr => B0 r hr _)
+      rw [hz, Nat.add_zero]
+      exact sum_map_congr _ _ _ (fun r hr => stable_at_target st.h r.k o n r.g (fr.noFiltered r hr) true (some r.x) c0 k0)
+    · have hq' : ∀ c k, q ≠ .maint .trait c k := fun c k e => hq ⟨c, k, e⟩
+      rw [countP_zero_of_shape _ q (fun a ha => by obtain ⟨c, k, e, _⟩ := mtKeys_shape _ a ha; exact ⟨c, k, e⟩) hq',
+        countP_zero_of_shape _ q (fun a ha => by obtain ⟨r, _, c, _, e⟩ := visitKeys_shape _ _ _ _ a ha; exact ⟨c, r.k, e⟩) hq']
+  have hmatch : ∀ (val : Val) o' q, effectSum (blockAt (storeField st.h o n v) val o' q) (st.H.get (.trait o n)) =
+      (regs.map (fun r => blocks (storeField st.h o n v) r.k val (visits st.h o n r.g (some r.x)) o' q)).sum := by
+    intro val o' q
+    rw [effectSum_eq_keys, sum_blocks_eq_keys]
+    apply sum_eq_of_equiv_counts _ _ _ hcounts
+    intro a ha b hb hab
+    obtain ⟨c, k, rfl, hm⟩ := mtKeys_shape _ a ha
+    obtain ⟨r, hr, c', hc', rfl⟩ := visitKeys_shape _ _ _ _ b hb
+    obtain ⟨rfl, rfl⟩ := fr.eqStruct c k hm r hr c' hc' hab
+    rfl
+  -- now the mutation itself
+  have hset' : (f.val == Val.unset) = false := by
+    cases hv : f.val with
+    | unset => exact absurd hv fr.hset
+    | _ => rfl
+  simp only [mutate, fr.ho, fr.hf]
+  by_cases hemp : (st.H.get (.trait o n)).isEmpty = true
+  · -- no notifier on the trait: plain store; no registration visits it
+    simp only [hemp, if_true]
+    refine ⟨⟨hwf, ?_⟩, trivial⟩
+    intro o' q
+    have hnil : st.H.get (.trait o n) = [] := by simpa using hemp
+    have e1 := hmatch f.val o' q
+    have e2 := hmatch v o' q
+    rw [hnil] at e1 e2
+    simp only [effectSum, List.map_nil, List.sum_nil] at e1 e2
+    rw [hcnt, specH, specH', ← e2]
+    have : (regs.map (fun r => blocks st.h r.k f.val (visits st.h o n r.g (some r.x)) o' q)).sum = 0 := by
+      rw [← sum_map_congr _ _ _ (fun r hr => L3 r hr o' q), ← e1]
+    omega
+  · simp only [hemp, Bool.false_eq_true, if_false, oldValue, hset']
+    by_cases hsame : (f.val == v) = true
+    · -- assigning the identical value: no notifier is called
+      simp only [hsame, if_true]
+      have hv : f.val = v := by simpa using hsame
+      refine ⟨⟨hwf, ?_⟩, trivial⟩
+      intro o' q
+      rw [hcnt, specH, specH']
+      congr 1
+      apply sum_map_congr
+      intro r hr
+      rw [← L3 r hr o' q, hv]
+    · simp only [hsame, Bool.false_eq_true, if_false, fire]
+      have hl : LoopOk E (storeField st.h o n v) f.val v (st.H.get (.trait o n)) :=
+        { alive := fr.alive
+          kinds := by
+            intro nt hnt mk g k e
+            subst e
+            -- by the invariant a maintainer on an instance trait is a trait / trait_added maintainer
+            cases mk with
+            | trait => exact Or.inl rfl
+            | added => exact Or.inr rfl
+            | list =>
+              exfalso
+              have h1 : 0 < cnt st.H (.trait o n) (.maint .list g k) := by
+                unfold cnt
+                exact cntList_pos_of_mem _ _ _ _ hnt
+              rw [hcnt] at h1
+              rw [specCnt_kind_trait st.h regs o n (.maint .list g k) ⟨.list, g, k, rfl, by simp, by simp⟩] at h1; omega
+            | dict =>
+              exfalso
+              have h1 : 0 < cnt st.H (.trait o n) (.maint .dict g k) := by
+                unfold cnt
+                exact cntList_pos_of_mem _ _ _ _ hnt
+              rw [hcnt] at h1
+              rw [specCnt_kind_trait st.h regs o n (.maint .dict g k) ⟨.dict, g, k, rfl, by simp, by simp⟩] at h1; omega
+            | set =>
+              exfalso
+              have h1 : 0 < cnt st.H (.trait o n) (.maint .set g k) := by
+                unfold cnt
+                exact cntList_pos_of_mem _ _ _ _ hnt
+              rw [hcnt] at h1
+              rw [specCnt_kind_trait st.h regs o n (.maint .set g k) ⟨.set, g, k, rfl, by simp, by simp⟩] at h1; omega
+          notName := fr.notName
+          okOld := fr.okOld
+          okNew := fr.okNew }
+      have hle : ∀ o' q, effectSum (blockAt (storeField st.h o n v) f.val o' q) (st.H.get (.trait o n)) ≤ cnt st.H o' q := by
+        intro o' q
+        rw [hmatch, hcnt, specH, sum_map_congr _ _ _ (fun r hr => L3 r hr o' q)]
+        omega
+      obtain ⟨e, w, c⟩ := callTrait_effect E (storeField st.h o n v) o n f.val v _ st.H [] hl hwf hle
+      refine ⟨⟨w, ?_⟩, e⟩
+      intro o' q
+      have := c o' q
+      rw [hmatch, hmatch, hcnt, specH, sum_map_congr _ _ _ (fun r hr => L3 r hr o' q)] at this
+      rw [specH']
+      omega
+
 end TraitsVerif.Model.Obs
